@@ -1,12 +1,14 @@
 /- op plugins: every topic file contributes `handle<Topic>? : String → Json → Option (M Json)` -/
 import PyndlDriver.OpsCreate
+import PyndlDriver.OpsText
+import PyndlDriver.OpsCorpus
 
 open Lean
 
 namespace PyndlDriver
 
 def plugins : List (String → Json → Option (M Json)) :=
-  [handleCreate?]
+  [handleCreate?, handleText?, handleCorpus?]
 
 def handlePlugin? (op : String) (j : Json) : Option (M Json) :=
   plugins.findSome? (fun h => h op j)
